@@ -111,6 +111,9 @@ def check_C01(chk):
             k = next(nid)
             # every second typed message follows, on the same thread, a send whose serialisation failed half-way
             cases.append({"id": k, "len": L, "nsend": k % 2, "nrecv": k % 3 == 0 and 1 or 0, "nshm": k % 2, "level": "typed", "prefail": (k // 2) % 2})
+            if k % 5 == 0:
+                # a value holding several regions with byte-identical contents
+                cases.append({"id": next(nid), "len": L, "nsend": 1, "nrecv": 0, "nshm": 2 + k % 3, "level": "typed", "samereg": 1})
         # a few transient-refusal patterns too: "does not depend on how the transport happens to split the payload"
         for pat in ("1", "01", "001", "0101", "2", "02", "002", "012", "0102", "03", "004", "0013"):
             for L in (lens[len(lens) // 2], lens[-1], F.ffs(Sv) + 3 * F.fs(Sv) + 11):
